@@ -38,7 +38,15 @@ pub struct BuildSpec {
 
 impl BuildSpec {
     pub fn builder(&self) -> QRBuilder {
-        let mut b = QRBuilder::new(self.input.clone());
+        // the same bytes reach the builder through different containers: exact-capacity Vec, Vec with spare capacity, &str / String
+        // (when the bytes are valid UTF-8) -- the result may depend on the bytes only
+        let k = self.input.len() + self.input.first().map(|b| *b as usize).unwrap_or(0);
+        let mut b = match k % 4 {
+            0 => { let mut v = Vec::with_capacity(self.input.len() + 1 + k % 61); v.extend_from_slice(&self.input); QRBuilder::new(v) }
+            1 => match std::str::from_utf8(&self.input) { Ok(s) => QRBuilder::new(s), Err(_) => QRBuilder::new(self.input.clone()) },
+            2 => match String::from_utf8(self.input.clone()) { Ok(s) => QRBuilder::new(s), Err(e) => QRBuilder::new(e.into_bytes()) },
+            _ => QRBuilder::new(self.input.clone()),
+        };
         if let Some(e) = self.ecl { b.ecl(LEVELS[e]); }
         if let Some(m) = self.mode { b.mode(MODES[m]); }
         if let Some(v) = self.version { b.version(version(v)); }
